@@ -60,11 +60,13 @@ def importName (path : Bytes) : Bytes :=
 
 def Decl.typeName? : Decl → Option Bytes
   | .type n _ => some n
+  | .alias n _ => some n
   | .iface n _ => some n
   | .func _ => none
 
 def Decl.topName? : Decl → Option Bytes
   | .type n _ => some n
+  | .alias n _ => some n
   | .iface n _ => some n
   | .func f => if f.recv.isNone then some f.name else none
 
@@ -72,6 +74,7 @@ def lookupType (decls : List Decl) (n : Bytes) : Option GoTy :=
   match decls with
   | [] => none
   | .type m t :: r => if m = n then some t else lookupType r n
+  | .alias m t :: r => if m = n then some t else lookupType r n
   | _ :: r => lookupType r n
 
 def lookupIface (decls : List Decl) (n : Bytes) : Option (List IfaceMethod) :=
@@ -96,6 +99,7 @@ def pkgOk (f : GoFile) : Bool := validName f.pkg && f.pkg != str "main"
 
 def Decl.pkgRefs : Decl → List Bytes
   | .type _ t => t.quals
+  | .alias _ t => t.quals
   | .iface _ ms => (ms.map fun m => m.params.quals ++ m.results.quals).flatten
   | .func f => f.pkgUses
 
@@ -168,6 +172,7 @@ end
 
 def Decl.shapeOk : Decl → Bool
   | .type _ t => t.shapeOk
+  | .alias _ t => t.shapeOk
   | .iface _ ms => distinct (ms.map (·.name)) && ms.all fun m =>
       validName m.name && paramListOk m.params && paramListOk m.results && m.params.shapeOk && m.results.shapeOk
   | .func f => paramListOk f.params && paramListOk f.results && f.params.shapeOk && f.results.shapeOk
@@ -211,6 +216,7 @@ end
 
 def Decl.resolves (tn pn : List Bytes) : Decl → Bool
   | .type _ t => t.resolves tn pn
+  | .alias _ t => t.resolves tn pn
   | .iface _ ms => ms.all fun m => m.params.resolves tn pn && m.results.resolves tn pn
   | .func f => f.params.resolves tn pn && f.results.resolves tn pn && Stmt.resolvesList tn pn f.body
 
@@ -419,6 +425,7 @@ def reachesName (decls : List Decl) (target : Bytes) : Nat → List Bytes → Bo
 def noCycleOk (f : GoFile) : Bool :=
   f.decls.all fun d => match d with
     | .type n t => !reachesName f.decls n f.decls.length t.directNames
+    | .alias n t => !reachesName f.decls n f.decls.length t.directNames
     | _ => true
 
 /-! ## the conjunction -/
